@@ -13,6 +13,7 @@ import math, random, hashlib, collections
 inf = float('inf')
 nan = float('nan')
 
+import sys as _sys
 CUR = None          # the active Run (one per process at a time)
 
 
@@ -259,9 +260,11 @@ class SimCost(object):
         run = CUR
         xt = tuple(float(v) for v in x)
         y = eval_model(self.spec, xt)
-        if run is None or run.observing:
+        if run is None or run.observing or _sys._getframe(1).f_code.co_name == 'approx_fprime':
             # the harness is looking (an oracle asked mystic to evaluate a condition that calls the raw cost, e.g.
-            # GradientNormTolerance): answer purely -- no log entry, no simulated time, no fault
+            # GradientNormTolerance): answer purely -- no log entry, no simulated time, no fault.
+            # Likewise when an installed GradientNormTolerance differentiates the raw cost from inside the solver's termination
+            # test: those calls are not evaluations of the optimisation (mystic does not count them, nor does the model)
             if isinstance(y, list):
                 import numpy
                 return numpy.array(y)
